@@ -259,6 +259,31 @@ def handleCross (decls pipes verdicts : String) : String :=
         " ".intercalate (four ++ [showTarget "mtlb" .MetalBytecode false cls ds ps])
   | _, _ => "bad-request"
 
+/-- `C18.mode <seed> <variant> <mode> <decls> <pipes> <verdicts>`: the four reports of one output of `compile()` asked for
+    one named pipeline (`name:<P>`; `pipes` holds that pipeline) or for no pipeline (`none`; `pipes` is empty: no stage is
+    reported).  The bindings come from `bindingsInMode` for the exporter facts extracted from the two `generate_module`s. -/
+def showTargetInMode (name : String) (t : Target) (sba : Bool) (m : Mode) (verdict : String) (ds : List Decl)
+    (pipes : List (String × List StageDef)) : String :=
+  if verdict != "ok" then name ++ "{" ++ verdict ++ "}" else
+  let ps := pipes.map fun (n, st) =>
+    n ++ "[" ++ ",".intercalate ((stageReportsInMode hlslRename t m st).map fun s =>
+      s.stage.name ++ ":" ++ s.entry ++ ":" ++ showThreads s.threads) ++ "]"
+  match bindingsInMode codeReportsWithoutPipeline codeNameMaps t sba m ds with
+  | .error _ => name ++ "{model:unsupported-object-kind}"
+  | .ok bs => name ++ "{" ++ ";".intercalate ps ++ "|" ++ ",".intercalate (sortStrings (bs.map showBinding)) ++ "}"
+
+def handleMode (mode decls pipes verdicts : String) : String :=
+  let m? : Option Mode := if mode == "none" then some .none else if mode.startsWith "name:" then some .named else none
+  match m?, parseDecls decls, parsePipes pipes with
+  | some m, some ds, some ps =>
+    if m == .none && !ps.isEmpty then "bad-request" else
+    let vs := parseVerdicts verdicts
+    " ".intercalate (targetNames.map fun n =>
+      match parseTarget n with
+      | some (t, sba) => showTargetInMode n t sba m ((vs.lookup n).getD "?") ds ps
+      | none => "?")
+  | _, _, _ => "bad-request"
+
 /-! ### C18.simplify: the program encoding of harness/src/c17/wgen.rs, resource items only -/
 
 open RsslVerif.Model.SimplifyCbuffers in
@@ -363,6 +388,7 @@ def handle (op : String) (args : List String) : String :=
     | some (t, _) => ";".intercalate ((targetDefines t).map fun d => d.1 ++ "=" ++ d.2)
     | none => "bad-request"
   | "C18.cross", [_seed, _variant, decls, pipes, verdicts] => handleCross decls pipes verdicts
+  | "C18.mode", [_seed, _variant, mode, decls, pipes, verdicts] => handleMode mode decls pipes verdicts
   | "C18.pp", [tgt, user, program] => handlePp tgt user program
   | _, _ => "unsupported-op"
 
